@@ -1252,9 +1252,9 @@ func roundTrip(name, spec string, body []byte, f []string) string {
 /**************** corpus and generator ****************/
 
 var rStrings = []string{"", "hi", "<b>bold</b> & \"quoted\" 'single'", "héllo wörld", "漢字 \U0001F600", "line1\nline2\ttab\r\n",
-	"\x00\x01\x1f\x7f", "a b c", "</script><script>alert(1)</script>", "\xff\xfe invalid", "  spaces  ", "{\"json\":1}", "]]>&amp;"}
+	"\x00\x01\x1f\x7f", "a b c", "</script><script>alert(1)</script>", "\xff\xfe invalid", "  spaces  ", "{\"json\":1}", "]]>&amp;", "100% sure", "%d of %s", "disk 95%!"}
 
-var rAlphabet = []rune("ab<>&\"'é漢\n\t\x01 /{}:,")
+var rAlphabet = []rune("ab<>&\"'é漢\n\t\x01 /{}:,%")
 
 var rStatuses = []int{-1, 0, 0, 200, 200, 201, 202, 204, 301, 302, 400, 404, 418, 500, 503, 599}
 
